@@ -345,13 +345,14 @@ func (r *Report) Finish() int {
 	for k, v := range r.extra {
 		cov[k] = v
 	}
+	assumptions := append([]string{"the Go toolchain (go/types, gofmt, compiler, reflect) and the harness's generators/oracles are trusted; only executions produced by this run are covered"}, r.assumptions...)
 	ev := map[string]any{
 		"property_id": e.Prop,
 		"tier":        e.Tier,
 		"seed":        e.Seed,
 		"level":       r.Level,
 		"coverage":    cov,
-		"assumptions": r.assumptions,
+		"assumptions": assumptions,
 		"wall_s":      time.Since(e.Start).Seconds(),
 		"violations":  len(fresh),
 	}
